@@ -123,6 +123,13 @@ def simOp (net : Net) (toks : List String) : Option (Net × String) :=
     pure (net', match r with
       | .ok (prev, l) => s!"ok:{prev}:{",".intercalate (l.map toString)}"
       | .error e => "err:" ++ e.name)
+  | ["reqjoinjoin", s, j, h, p] => do
+    -- a complete Join of `h` through `p` runs between the routing decision for `j` and the membership lock
+    let s ← nat s; let j ← nat j; let h ← nat h; let p ← nat p
+    let (net', r) := requestToJoinWith (fun n => (join n h p).1) net FUEL s j
+    pure (net', match r with
+      | .ok (prev, l) => s!"ok:{prev}:{",".intercalate (l.map toString)}"
+      | .error e => "err:" ++ e.name)
   | ["finish", n, st, rel] => do
     let n ← nat n; let st ← parseBool st; let rel ← parseBool rel
     pure (finish net n st rel, "ok")
